@@ -194,6 +194,7 @@ def _run(env):
     allh = sorted(S.HASHES)
     with warnings.catch_warnings():
         warnings.simplefilter('ignore')
+        sig_value_encodings(env)
         for ki, name in enumerate(names):
             try:
                 env.key(name)
@@ -211,6 +212,46 @@ def _run(env):
                 label, signer, sig, sobj, msubj, pub, et = item
                 check_pgpy_signature(env, 'pgpy-made', '%s/%s' % (name, label), signer, sig, sobj, msubj, verifier_pub=pub, expect_type=et)
             independent_signer(env, name)
+
+
+def sig_value_encodings(env):
+    """DSASignature / ECDSASignature / EdDSASignature .from_signer and __sig__ against the model and against cryptography's DER encoder"""
+    ctx, d = env.ctx, env.d
+    rng = ctx.rng
+    from cryptography.hazmat.primitives.asymmetric import utils
+    from pgpy.packet.fields import DSASignature, ECDSASignature, EdDSASignature
+    sizes = [1, 7, 8, 159, 160, 255, 256, 257, 383, 384, 511, 512, 520, 521, 1016, 1023, 1024, 2048]
+    for i in range(ctx.n(300, 4000)):
+        r = rng.getrandbits(rng.choice(sizes)); s = rng.getrandbits(rng.choice(sizes))
+        if i < 8: r, s = [(0, 0), (0, 1), (127, 128), (255, 256), (1 << 1015, 1), (1 << 1016, (1 << 1024) - 1), ((1 << 2048) - 1, 0), (128, 32768)][i]
+        der = utils.encode_dss_signature(r, s)
+        ctx.case('sig-encoding', ('dsa', r, s), sample={'r_bits': r.bit_length(), 's_bits': s.bit_length(), 'der_len': len(der)})
+        case = {'op': 'der', 'r': hn(r), 's': hn(s)}
+        md = d.call('der_seq2', hn(r), hn(s))
+        if md == 'ERR' or unhx(md) != der:
+            ctx.fail('sig-encoding', 'Spec DER encoder differs from cryptography (harness self-check)', dict(case, model=md[:200], lib=der.hex()[:200])); continue
+        for cls in (DSASignature, ECDSASignature):
+            o = outcome(lambda: (lambda x: (x.from_signer(der), (int(x.r), int(x.s)))[1])(cls()))
+            mo = d.call('dsa_from_signer', hx(der))
+            want = ('ok', (r, s))
+            if o != want:
+                ctx.fail('sig-encoding', '%s.from_signer does not recover (r, s) from DER' % cls.__name__, dict(case, impl=repr(o)[:200]))
+            if cls is DSASignature and mo != '%s %s' % (hn(r), hn(s)):
+                ctx.fail('sig-encoding', 'model DER reader disagrees', dict(case, model=mo))
+            x = cls(); x.from_signer(der)
+            if bytes(x.__sig__()) != der:
+                ctx.fail('sig-encoding', '%s.__sig__ is not the DER encoding of (r, s)' % cls.__name__, dict(case, impl=bytes(x.__sig__()).hex()[:200]))
+    for i in range(ctx.n(200, 3000)):
+        sig = bytes(rng.randrange(256) for _ in range(64))
+        if i == 0: sig = bytes(64)
+        if i == 1: sig = b'\x00' * 31 + b'\x01' + b'\x00' * 32
+        x = EdDSASignature(); x.from_signer(sig)
+        ctx.case('sig-encoding', ('eddsa', sig))
+        mo = d.call('eddsa_from_signer', hx(sig))
+        if mo != '%s %s' % (hn(int(x.r)), hn(int(x.s))):
+            ctx.fail('sig-encoding', 'EdDSASignature.from_signer differs from the model', {'op': 'eddsa', 'sig': sig.hex(), 'model': mo})
+        if bytes(x.__sig__()) != sig or unhx(d.call('eddsa_sig', hn(int(x.r)), hn(int(x.s)))) != sig:
+            ctx.fail('sig-encoding', 'EdDSA split / join is not the identity', {'op': 'eddsa', 'sig': sig.hex(), 'impl': bytes(x.__sig__()).hex()})
 
 
 def independent_signer(env, name):
